@@ -51,7 +51,7 @@ def run(ctx):
         prov = "zoneinfo" if n % 2 else "pytz"
         r = n % 6
         if r in (0, 1):
-            g = G(rng, hostile=rng.choice((0.0, 0.1, 0.3)))
+            g = G(rng, hostile=rng.choice((0.0, 0.1, 0.3)), multi_resources=True)
             m = g.calendar()
             ctx.check(("wellformed", prov, m, rng.choice((None, rng.randrange(10 ** 6)))), "wellformed-G3")
         elif r == 2:
@@ -183,7 +183,11 @@ def check_wellformed(ctx, case):
     if got != want:
         key = None
         try:
-            if refparse.parse(text, prov, refparse.split_defect) == got:
+            # the library registers RESOURCES as one TEXT instead of a TEXT list: exact prediction with that reading alone ...
+            if refparse.parse(text, prov, resources_as_list=False) == got:
+                key = "multivalue-text-collapsed"
+            # ... or together with the placeholder split
+            elif refparse.parse(text, prov, refparse.split_defect, resources_as_list=False) == got:
                 key = "parts-placeholder"
         except Exception:
             pass
